@@ -1,5 +1,9 @@
 import PyYetiVerif.Model.RigidBody
 import PyYetiVerif.Model.RigidBodyGuyan
+import PyYetiVerif.Model.RigidBodyNet
+import PyYetiVerif.Model.RigidBodyPrinc
+import PyYetiVerif.Model.RigidBodyMult
+import PyYetiVerif.Model.RigidBodyCheck
 /-! Line protocol for C06.  Floats travel as decimal `UInt64` bit patterns, integers in decimal.
 Matrices are sent row-major.
 
@@ -10,25 +14,36 @@ request                                                         reply
 `rbuset ng u(18 ng) ref(3)`                                     `rb(36 ng)`
 `pv lt last nb b…`                                              `pv…` (integers)
 `conv drm nr lt lc mc nb b… M(nr lt)`                           `M'(nr lt)`
-`cbcheck n nb bseto… bref(6) conv(0 | 1 lc mc) reorder rbnorm(-1|0|1) uref(0 x y z | 1 gridrow)
-         u(3 nb) M(n n) K(n n)`
+`cbcheck n nb bseto… bref(6) conv(0 | 1 lc mc | 2 = 'm2e' | 3 = 'e2m': generated factors) reorder rbnorm(-1|0|1)
+         emfilt uref(0 x y z | 1 gridrow) usetN u(3 nb) M(n n) K(n n)`   (dispatch + fields: `Model/RigidBodyCheck.cbcheckWith`)
       → `chk m(n n) k(n n) rbs(6 n) rbg(6 nb) ms(36) mg(36) effmass(6 nq) percent(6 nq) frq(nq)
          resid(36) ds(3) dg(3) gyrs(3) gyrg(3) Is(9) Ig(9) rbfs(6 n) Ss(36) rbfg(6 nb) Sg(36)
-         rsss(3 ng) rssg(3 ng) rots(3 ng) rotg(3 ng) coords(3 ng) errs(ng) vals(6) ntrim nnull nml null… ml…`
+         rsss(3 ng) rssg(3 ng) rots(3 ng) rotg(3 ng) coords(3 ng) errs(ng) vals(6) ntrim nnull nml nprinted rbnorm
+         null… ml… printed…`
          (`ntrim` zero-stiffness boundary DOF trimmed by `_cbcoordchk`; `null`/`ml` the two `pv` lists `_solve_eig` prints)
          with `chk` = `pass`/`fail`/`single` (refpoint check; `single` when there is no other DOF),
          or `raise-refpoint` when a reference DOF has zero stiffness, `raise-singular` when a node's
-         translation block is singular (zero-stiffness translation)
+         translation block is singular (zero-stiffness translation), `raise-usetrows` / `raise-notascending` (ValueError)
 `solveeig n nb p bset… M(n n) K(n n) V(n p)`
       → `n1 nx nzm keep(n1) xs(nx) zs(nzm) bflag(nx) kred(nx nx) mred(nx nx) psi(nzm nx) presid V'(n p)`
          (`V'` = the rows of `V` on the DOF with mass, expanded back by the model)
 `rbdisp nn tol rb(3 nn 6)`                                      `coords(3 nn) errs(nn) warn(nn)` | `raise-singular`
 `netdrm nb nbi n conv(0 | 1 lc mc) bset… sub… u(3 nb) ref(3) M(n n)`  `drm_sc(6 n) drm_lv(6 n)` (mk_net_drms: `rb.T @ M[bset[sub]]`
          with `rb = rbgeom_uset(uset[sub], ref)`; s/c version converted as a DRM, l/v version from converted M, uset, ref)
+`netfull nb nbi n conv(0 | 1 lc mc | 2 | 3) reorder sc(0 | 1 T(9)) g tausc taulv indep(0 | code) bset… sub… u(3 nb)
+         ref(3) M(n n) K(n n)`  (the whole `mk_net_drms`: `Model/RigidBodyNet.mkNetDrmsWith`; `tausc`/`taulv` are the tau strings)
+      → `ifltma_sc(6 n) ifltmd_sc(6 nb) ifltma_lv(6 n) ifltmd_lv(6 nb) ifatm_sc(6 n) ifatm_lv(6 n) cgatm_sc(6 n) cgatm_lv(6 n)
+         cglfa(14 n) cglfd(14 nb) weight_sc height_sc weight_lv height_lv cg_sc(3) cg_lv(3) rb(nbi 6) rb_all(nb 6) rbe3resid
+         cgresid axsc axlv replace grounding # label|label|…` (12 + 12 + 14 labels)
+`princ m(36)`                                                   `pI(3) pgyr(3) residO residD ascending` (Jacobi eigh of the cg inertia)
+`rbchk den spec(first | last | str | vec) nr nc nb [k…] drm(nr nc) rb(nb 6)`  integers / den: `rbmultchkQ`
+      → `ok s2 | pv… | x y z ; … | us2 … | mn(3) mx(3) or none | null… | modelscale | drmrb…` (rationals n/d, nan = unset),
+        `ok-borderline s2 | null… | drmrb…`, or `err rbCols | bsetString | scale`
 `rbmult nr nc nb bset… drm(nr nc) rb(nb 6)`                     `drmrb(nr 6)`
 `cbtf0 n nb bset… a(nb) M(n n)`                                 `frc(nb) rhs(nq)`
 anything else → `bad-op` -/
 open PyYetiVerif.RigidBody
+open PyYetiVerif.Xyz (Result)
 
 abbrev P := StateT (List String) Option
 
@@ -159,72 +174,29 @@ def usetKinds (_ng : Nat) (u : NMat Float) : (Nat → Bool) × (Nat → Bool) :=
 
 def twoPi : Float := 2 * 3.141592653589793
 
-def doCbcheck : P String := do
-  let n ← pNat; let nb ← pNat
-  let bseto ← pMany nb pNat; let bref0 ← pMany 6 pNat
-  let cflag ← pNat
-  let (lc, mc) ← (if cflag == 1 then do let a ← pF; let b ← pF; pure (a, b) else pure (1.0, 1.0))
-  let reord ← pNat; let rbn ← pInt
-  let ukind ← pNat
-  let urefV ← (if ukind == 0 then pV3 else pure ⟨0, 0, 0⟩)
-  let urefRow ← (if ukind == 1 then pNat else pure 0)
-  let ua ← pMany (3 * nb) pF
-  let Ma ← pMany (n * n) pF; let Ka ← pMany (n * n) pF
-  pEnd
-  let bl := bseto.toList
-  let nq := n - nb
-  -- unit conversion
-  let M0 := ofArr Ma n; let K0 := ofArr Ka n; let u0 := ofArr ua 3
-  let M1a := if cflag == 1 then tab n n (cbconvert M0 bl lc mc false) else Ma
-  let M1 := ofArr M1a n
-  let K1a := if cflag == 1 then tab n n (cbconvert K0 bl lc mc false) else Ka
-  let K1 := ofArr K1a n
-  let u1a := if cflag == 1 then tab nb 3 (usetConvert u0 lc) else ua
-  let u1 := ofArr u1a 3
-  let urefV1 : V3 Float := if cflag == 1 then ⟨urefV.x * lc, urefV.y * lc, urefV.z * lc⟩ else urefV
-  -- reordering
-  let pvl := pvList bl n false
-  let pvf : Nat → Nat := fun i => pvl[i]!
-  let M2a := if reord == 1 then tab n n (reorder M1 pvf) else M1a
-  let M2 := ofArr M2a n
-  let K2a := if reord == 1 then tab n n (reorder K1 pvf) else K1a
-  let K2 := ofArr K2a n
-  let rk := usetRank bl
-  let u2a := if reord == 1 then tab nb 3 (fun i j => u1 (rk[i]!) j) else u1a
-  let u2 := ofArr u2a 3
-  let bset : List Nat := if reord == 1 then List.range nb else bl
-  -- where the reference DOF are in the new b-set (positions relative to min(bset))
-  let brefl := bref0.toList
-  let bref : List Nat :=
-    if reord == 1 then (List.range nb).filter (fun i => brefl.contains bl[i]!)
-    else brefl
-  let bmin := bset.foldl min (bset.headD 0)
-  let refp := bref.map (· - bmin)
-  -- geometry-based modes
+/-- `_cbcoordchk` on the b-set stiffness `kbb` (rows in `bset` order): zero-stiffness trimming (more than six DOF),
+stiffness-based modes with the identity on the reference DOF `refp` (positions inside the b-set), the refpoint check,
+optional normalisation, coordinates and pattern errors from the translation rows (`rbdispchk`) -/
+structure CoordChkOut where
+  chk : String
+  rbsB : Array Float
+  coords : Array Float
+  errs : Array Float
+  resid : Array Float
+  ntrim : Nat
+
+def coordChk (nb : Nat) (kbb : NMat Float) (refp : List Nat) (normz : Option (NMat Float)) : Except String CoordChkOut := do
   let ng := nb / 6
-  let (isC, isS) := usetKinds ng u2
-  let uref : V3 Float :=
-    if ukind == 1 then
-      -- grid id resolved by the harness to the grid's first row in the table it sends
-      ⟨u1 urefRow 0, u1 urefRow 1, u1 urefRow 2⟩
-    else urefV1
-  let rbg_a := tab nb 6 (rbgeomUset u2 isC isS uref)
-  let rbg := ofArr rbg_a 6
-  let contiguous := (List.range 5).all fun i => bref[i+1]! == bref[i]! + 1
-  let rbnorm := if rbn == -1 then !contiguous else rbn == 1
-  -- stiffness-based modes, with the zero-stiffness trimming of `_cbcoordchk` (only when lb > 6)
-  let bfn : Nat → Nat := fun i => bset[i]!
-  let kbb_a := tab nb nb (reorder K2 bfn)
-  let kbb := ofArr kbb_a nb
+  let kbb_a := tab nb nb kbb
   let keep0 := coordKeep nb kbb
-  let trimmed := nb > 6 && keep0.length < nb
+  let trimmed := nb > PyYetiVerif.Generated.RigidBodyConsts.trimMinRows && keep0.length < nb
   let keep := if trimmed then keep0 else List.range nb
   let lbT := keep.length
   let kpf : Nat → Nat := fun i => keep[i]!
   let kbbT_a := if trimmed then tab lbT lbT (reorder kbb kpf) else kbb_a
   let kbbT := ofArr kbbT_a lbT
   let refT := if trimmed then trimRef keep refp else refp
-  if refT.length != 6 then return "raise-refpoint"
+  if refT.length != 6 then throw "raise-refpoint"
   let o := flippv refT lbT
   let no := o.length
   let rf : Nat → Nat := fun i => refT[i]!
@@ -248,18 +220,111 @@ def doCbcheck : P String := do
       let ok := (List.range 36).all fun t =>
         let i := t / 6; let j := t % 6
         let rhs := krr i j - resid i j
-        (resid i j).abs <= kmax * 1e-8 + 1e-5 * rhs.abs
+        (resid i j).abs <= kmax * Float.ofBits PyYetiVerif.Generated.RigidBodyConsts.refTolBits + 1e-5 * rhs.abs
       if ok then "pass" else "fail"
   let rbsT_a := tab lbT 6 (rbsAssemble refT o X)
   let rbsB0_a := if trimmed then tab nb 6 (nullExpand keep (ofArr rbsT_a 6)) else rbsT_a
   let rbsB0 := ofArr rbsB0_a 6
-  let normz_a := tab 6 6 (fun i j => rbg (bref[i]! - bmin) j)
-  let normz := ofArr normz_a 6
-  let rbsBa := if rbnorm then tab nb 6 (mulN 6 rbsB0 normz) else rbsB0_a
+  let rbsBa := match normz with
+    | some nz => tab nb 6 (mulN 6 rbsB0 nz)
+    | none => rbsB0_a
   let rbsB := ofArr rbsBa 6
   -- coordinates from the translation rows (`rbdispchk(rbmodes[xyz])`)
   let xyz_a := tab (3 * ng) 6 (fun i j => rbsB (6 * (i / 3) + i % 3) j)
-  let some (coords, errs, _) := rbdispAll ng (ofArr xyz_a 6) 1.0e-4 | return "raise-singular"
+  match rbdispAll ng (ofArr xyz_a 6) (Float.ofBits PyYetiVerif.Generated.RigidBodyConsts.rbdispTolBits) with
+  | none => throw "raise-singular"
+  | some (coords, errs, _) =>
+    pure { chk := chk, rbsB := rbsBa, coords := coords, errs := errs, resid := resid_a, ntrim := nb - lbT }
+
+/-- `cb.cbcoordchk(K, bset, refpoint, rb_normalizer=…)` called directly: `coordchk n nb bset… ref(6) norm(0 | 1 N(36)) K(n n)`
+→ `chk nrows rbmodes(nrows 6) coords(3 ng) errs(ng) ntrim`, or `raise-bset-multiple` / `raise-refpoint` / `raise-singular`.
+(`nrows = n`: the modes are scattered to the rows `bset` of a zero matrix, with and - since the fix of finding F67 -
+without modal DOF.) -/
+def doCoordchk : P String := do
+  let n ← pNat; let nb ← pNat
+  let bset ← pMany nb pNat; let ref ← pMany 6 pNat
+  let nflag ← pNat
+  let nza ← (if nflag == 1 then pMany 36 pF else pure #[])
+  let Ka ← pMany (n * n) pF; pEnd
+  if (nb / 6) * 6 != nb then return "raise-bset-multiple"
+  let K := ofArr Ka n
+  let bl := bset.toList
+  let kbb_a := tab nb nb (reorder K fun i => bset[i]!)
+  let refp := ref.toList.filterMap (idxIn bl)
+  match coordChk nb (ofArr kbb_a nb) refp (if nflag == 1 then some (ofArr nza 6) else none) with
+  | .error e => pure e
+  | .ok c =>
+    let rbsB := ofArr c.rbsB 6
+    let nrows := n
+    let rbm := tab n 6 (fun i j => match idxIn bl i with | some k => rbsB k j | none => 0)
+    pure (" ".intercalate ([c.chk, toString nrows, fmtA rbm, fmtA c.coords, fmtA c.errs, toString c.ntrim].filter (· ≠ "")))
+
+/-- tabulation of an `nr x nc` block (the `memo` argument of the models): semantically the identity -/
+@[noinline] def memoF (nr nc : Nat) (A : NMat Float) : Tbl Float :=
+  let a := tab nr nc A
+  ⟨fun i j => if i < nr && j < nc then a[i * nc + j]! else A i j, nr⟩
+
+/-- conversion factors: `0` none, `1 lc mc` a tuple, `2` = 'm2e', `3` = 'e2m' (the factors of `_get_conv_factors`,
+generated from the source) -/
+def pConv : P (Option (Float × Float)) := do
+  let cflag ← pNat
+  match cflag with
+  | 0 => pure none
+  | 1 => do let a ← pF; let b ← pF; pure (some (a, b))
+  | 2 => pure (some (Float.ofBits PyYetiVerif.Generated.RigidBodyConsts.m2eLenBits,
+                     Float.ofBits PyYetiVerif.Generated.RigidBodyConsts.m2eMassBits))
+  | 3 => pure (some (Float.ofBits PyYetiVerif.Generated.RigidBodyConsts.e2mLenBits,
+                     Float.ofBits PyYetiVerif.Generated.RigidBodyConsts.e2mMassBits))
+  | _ => failure
+
+def doCbcheck : P String := do
+  let n ← pNat; let nb ← pNat
+  let bseto ← pMany nb pNat; let bref0 ← pMany 6 pNat
+  let conv ← pConv
+  let reord ← pNat; let rbn ← pInt
+  let emf ← pF
+  let ukind ← pNat
+  let urefV ← (if ukind == 0 then pV3 else pure ⟨0, 0, 0⟩)
+  let urefRow ← (if ukind == 1 then pNat else pure 0)
+  let usetN ← pNat
+  let ua ← pMany (3 * usetN) pF
+  let Ma ← pMany (n * n) pF; let Ka ← pMany (n * n) pF
+  pEnd
+  let bl := bseto.toList
+  let nq := n - nb
+  let M0 := ofArr Ma n; let K0 := ofArr Ka n; let u0 := ofArr ua 3
+  let (isC0, isS0) := usetKinds (usetN / 6) u0
+  let opts : CbOpts Float := {
+    conv := conv, reorder := reord == 1
+    rbNorm := if rbn == -1 then none else some (rbn == 1), emFilt := emf
+    nFreeFree := PyYetiVerif.Generated.RigidBodyConsts.nFreeFreeDefault }
+  let uref : URef Float := if ukind == 1 then .grid urefRow else .loc urefV
+  let out ← match cbcheckWith memoF n M0 K0 bl bref0.toList usetN u0 isC0 isS0 uref opts twoPi 100 with
+    | .error .usetRows => return "raise-usetrows"
+    | .error .notAscending => return "raise-notascending"
+    | .ok o => pure o
+  let M2 := out.m; let K2 := out.k
+  let M2a := tab n n M2; let K2a := tab n n K2
+  let bset := out.bset
+  let refp := out.brefB
+  let ng := nb / 6
+  let rbg_a := tab nb 6 out.rbg
+  let rbg := ofArr rbg_a 6
+  let rbnorm := out.rbNorm
+  -- stiffness-based modes (`cbcoordchk`)
+  let bfn : Nat → Nat := fun i => bset[i]!
+  let kbb_a := tab nb nb (reorder K2 bfn)
+  let kbb := ofArr kbb_a nb
+  let normz_a := tab 6 6 (fun i j => rbg (refp[i]!) j)
+  let cc ← match coordChk nb kbb refp (if rbnorm then some (ofArr normz_a 6) else none) with
+    | .error e => return e
+    | .ok c => pure c
+  let chk := cc.chk
+  let rbsB := ofArr cc.rbsB 6
+  let coords := cc.coords
+  let errs := cc.errs
+  let resid := ofArr cc.resid 6
+  let lbT := nb - cc.ntrim
   -- rows of the full-size modes: b-set rows hold rbsB, modal rows are zero
   let rbs_a := tab n 6 (fun i j => match idxIn bset i with | some k => rbsB k j | none => 0)
   let rbs := ofArr rbs_a 6
@@ -269,15 +334,9 @@ def doCbcheck : P String := do
   let mbb := ofArr mbb_a nb
   let mg_a := tab 6 6 (mass6 nb rbg mbb)
   let mg := ofArr mg_a 6
-  let q := flippv bset n
-  let qf : Nat → Nat := fun i => q[i]!
-  let mqb_a := tab nq nb (fun i j => M2 (qf i) (bfn j))
-  let mqb := ofArr mqb_a nb
-  let em_a := tab nq 6 (effmass nb mqb rbg)
-  let em := ofArr em_a 6
-  let ep_a := tab nq 6 (effmassPercent nb mqb rbg mg 100)
-  let ep := ofArr ep_a 6
-  let frq := (List.range nq).toArray.map fun i => (K2 (qf i) (qf i)).abs.sqrt / twoPi
+  let em := out.effmass
+  let ep := out.percent
+  let frq := (List.range nq).toArray.map out.frq
   -- mass properties at the cg
   let (mcgs0, ds) := cgmass ms
   let mcgs_a := tab 6 6 mcgs0
@@ -312,14 +371,14 @@ def doCbcheck : P String := do
   let v4 := bi.foldl (fun m i => qi.foldl (fun m2 j => if (kr i j).abs > m2 then (kr i j).abs else m2) m) 0
   let v5 := qi.foldl (fun m i => qi.foldl (fun m2 j => if i != j && (kr i j).abs > m2 then (kr i j).abs else m2) m) 0
   let v6 := qi.foldl (fun m i => if kr i i < m then kr i i else m) big
-  let parts : List String := [chk, fmtM n n M2, fmtM n n K2, fmtM n 6 rbs, fmtM nb 6 rbg, fmtM 6 6 ms,
+  let parts : List String := [chk, fmtA M2a, fmtA K2a, fmtM n 6 rbs, fmtM nb 6 rbg, fmtM 6 6 ms,
     fmtM 6 6 mg, fmtM nq 6 em, fmtM nq 6 ep, fmtA frq, fmtM 6 6 resid,
     fmtV ds, fmtV dg, fmtV (gyr mcgs), fmtV (gyr mcgg), fmtA Is_a, fmtA Ig_a,
     fmtA rbfs_a, fmtA Ss_a, fmtA rbfg_a, fmtA Sg_a,
     fmtA (rss rbsB 0), fmtA (rss rbg 0), fmtA (rss rbsB 3), fmtA (rss rbg 3),
     fmtA coords, fmtA errs, fmtA #[v1, v2, v3, v4, v5, v6], toString (nb - lbT),
-    toString (n - e.keep.length), toString e.zs.length,
-    fmtNats ((List.range n).filter fun i => !e.keep.contains i), fmtNats e.zs]
+    toString (n - e.keep.length), toString e.zs.length, toString out.printed.length, (if rbnorm then "1" else "0"),
+    fmtNats ((List.range n).filter fun i => !e.keep.contains i), fmtNats e.zs, fmtNats out.printed]
   pure (" ".intercalate (parts.filter (· ≠ "")))
 
 def doSolveEig : P String := do
@@ -395,6 +454,143 @@ def doCbtf0 : P String := do
   let rhs := (List.range q.length).toArray.map (cbtfStaticRhs nb M bf (fun i => q[i]!) (fun k => a[k]!))
   pure (" ".intercalate ([fmtA frc, fmtA rhs].filter (· ≠ "")))
 
+
+/-! ### mk_net_drms as a whole -/
+
+def solve6 (nc : Nat) (A B : NMat Float) : NMat Float :=
+  let x := gesolve 6 nc A B
+  fun i j => x[i * nc + j]!
+
+def maxAbsA (a : Array Float) : Float := a.foldl (fun m x => if x.abs > m then x.abs else m) 0
+
+def doNetfull : P String := do
+  let nb ← pNat; let nbi ← pNat; let n ← pNat
+  let conv ← pConv
+  let reord ← pNat
+  let scflag ← pNat
+  let sca ← (if scflag == 1 then pMany 9 pF else pure #[])
+  let g ← pF
+  let tauSc ← tok; let tauLv ← tok
+  let indep ← pNat
+  let bset ← pMany nb pNat; let sub ← pMany nbi pNat
+  let ua ← pMany (3 * nb) pF; let ref ← pV3
+  let Ma ← pMany (n * n) pF; let Ka ← pMany (n * n) pF; pEnd
+  let u := ofArr ua 3
+  let (isC, isS) := usetKinds (nb / 6) u
+  let o : NetOpts Float := {
+    conv := conv, sccoord := if scflag == 1 then some (ofArr sca 3) else none, g := g
+    tauScG := tauSc == "g", tauLvG := tauLv == "g", reorder := reord == 1
+    rbe3Indep := if indep == 0 then none else some indep }
+  let r := mkNetDrmsWith memoF n (ofArr Ma n) (ofArr Ka n) bset.toList sub.toList u isC isS ref o solve6
+  -- specification residuals of the two kernels: A X = B (RBE3 normal equations), Mcg X = B (cg acceleration)
+  let m := r.nxyz
+  let res1 := maxAbsA (tab 6 m fun i j => (sumN 6 fun t => r.rbe3A i t * r.rbe3X t j) - r.rbe3B i j)
+  let sc1 := maxAbsA (tab 6 m r.rbe3B)
+  let res2 := maxAbsA (tab 6 n fun i j => (sumN 6 fun t => r.mcg i t * r.cgX t j) - r.cgB i j)
+  let sc2 := maxAbsA (tab 6 n r.cgB)
+  let nbi' := (if reord == 1 then (netReorderSub bset.toList sub.toList).length else nbi)
+  let fl : List String := [fmtM 6 n r.ifltmaSc, fmtM 6 nb r.ifltmdSc, fmtM 6 n r.ifltmaLv, fmtM 6 nb r.ifltmdLv,
+    fmtM 6 n r.ifatmSc, fmtM 6 n r.ifatmLv, fmtM 6 n r.cgatmSc, fmtM 6 n r.cgatmLv, fmtM 14 n r.cglfa, fmtM 14 nb r.cglfd,
+    fmtA #[r.weightSc, r.heightSc, r.weightLv, r.heightLv], fmtV r.cgSc, fmtV r.cgLv, fmtM nbi' 6 r.rb, fmtM nb 6 r.rbAll,
+    fmtA #[res1 / (if sc1 == 0 then 1 else sc1), res2 / (if sc2 == 0 then 1 else sc2)]]
+  let ints : String := s!"{r.axSc} {r.axLv} {if r.replaceLv then 1 else 0} {if r.grounding then 1 else 0}"
+  let labels := "|".intercalate (ifltmLabels r.axSc r.axLv ++ ifatmLabels r.axSc r.axLv tauSc tauLv ++ cglfLabels r.replaceLv)
+  pure (" ".intercalate (fl.filter (· ≠ "")) ++ " " ++ ints ++ " # " ++ labels)
+
+/-! ### cgmass(all6=True): principal axes -/
+
+/-- cyclic Jacobi iteration for a symmetric 3x3 matrix (the `Float` stand-in for `linalg.eigh`): eigenvalues ascending,
+eigenvectors in the columns of `V` -/
+def jacobi3 (I : NMat Float) : Array Float × Array Float := Id.run do
+  let mut a : Array Float := tab 3 3 I
+  let mut v : Array Float := #[1, 0, 0, 0, 1, 0, 0, 0, 1]
+  for _ in [0:60] do
+    for (p, q) in [(0, 1), (0, 2), (1, 2)] do
+      let apq := a[3 * p + q]!
+      if apq != 0 then
+        let theta := (a[3 * q + q]! - a[3 * p + p]!) / (2 * apq)
+        let t := (if theta >= 0 then 1.0 else -1.0) / (theta.abs + (theta * theta + 1).sqrt)
+        let c := 1 / (t * t + 1).sqrt
+        let s := t * c
+        -- A <- Jᵀ A J, V <- V J with J = rotation in the (p, q) plane
+        let mut b := a
+        for k in [0:3] do
+          let akp := a[3 * k + p]!; let akq := a[3 * k + q]!
+          b := b.set! (3 * k + p) (c * akp - s * akq)
+          b := b.set! (3 * k + q) (s * akp + c * akq)
+        let mut d := b
+        for k in [0:3] do
+          let bpk := b[3 * p + k]!; let bqk := b[3 * q + k]!
+          d := d.set! (3 * p + k) (c * bpk - s * bqk)
+          d := d.set! (3 * q + k) (s * bpk + c * bqk)
+        a := d
+        let mut w := v
+        for k in [0:3] do
+          let vkp := v[3 * k + p]!; let vkq := v[3 * k + q]!
+          w := w.set! (3 * k + p) (c * vkp - s * vkq)
+          w := w.set! (3 * k + q) (s * vkp + c * vkq)
+        v := w
+  -- sort ascending
+  let idx := [0, 1, 2].mergeSort fun i j => a[3 * i + i]! <= a[3 * j + j]!
+  let w := idx.toArray.map fun i => a[3 * i + i]!
+  let vs := tab 3 3 fun r c => v[3 * r + idx[c]!]!
+  pure (w, vs)
+
+def doPrinc : P String := do
+  let a ← pMany 36 pF; pEnd
+  let (mcg0, _) := cgmass (ofArr a 6)
+  let mcga := tab 6 6 mcg0
+  let mcg := ofArr mcga 6
+  let Ia := tab 3 3 (inertiaBlock mcg)
+  let I := ofArr Ia 3
+  let (w, va) := jacobi3 I
+  let V := ofArr va 3
+  let wf : Nat → Float := fun i => w[i]!
+  let pg := (List.range 3).toArray.map (princGyr mcg wf V)
+  let sc := maxAbsA Ia
+  let rO := maxAbsA (tab 3 3 (eighResidO V))
+  let rD := maxAbsA (tab 3 3 (eighResidD I V wf)) / (if sc == 0 then 1 else sc)
+  pure (fmtA w ++ " " ++ fmtA pg ++ " " ++ fmtA #[rO, rD] ++ " " ++ (if ascending3 wf then "1" else "0"))
+
+/-! ### rbmultchk on exact rationals -/
+
+def fmtQ (q : Rat) : String := s!"{q.num}/{q.den}"
+def fmtOQ : Option Rat → String
+  | some q => fmtQ q
+  | none => "nan"
+
+def doRbchk : P String := do
+  let den ← pNat
+  let spectok ← tok
+  let nr ← pNat; let nc ← pNat; let nb ← pNat
+  let vecl ← (if spectok == "vec" then do let k ← pNat; pMany k pNat else pure #[])
+  let d ← pMany (nr * nc) pInt; let rb ← pMany (nb * 6) pInt; pEnd
+  let q (x : Int) : Rat := mkRat x den
+  let drm : List (List Rat) := (List.range nr).map fun i => (List.range nc).map fun j => q d[i * nc + j]!
+  let rbl : List (List Rat) := (List.range nb).map fun i => (List.range 6).map fun j => q rb[i * 6 + j]!
+  let spec : BsetSpec := match spectok with
+    | "first" => .first
+    | "last" => .last
+    | "vec" => .vec vecl.toList
+    | s => .str s
+  match rbmultchkQ drm rbl spec with
+  | .error e => pure ("err " ++ (match e with | .rbCols => "rbCols" | .bsetString => "bsetString" | .scale => "scale"))
+  | .ok o =>
+    let drmrb := " ".intercalate (o.drmrb.map fun r => " ".intercalate (r.map fmtQ))
+    let nulls := " ".intercalate (o.nullRows.map toString)
+    match o.trips with
+    | none => pure (s!"ok-borderline {fmtQ o.rbscale2} | {nulls} | {drmrb}")
+    | some t =>
+      let pv := " ".intercalate (t.pv.map fun b => if b then "1" else "0")
+      let cs := " ; ".intercalate (t.coords.map fun c => match c with
+        | some (x, y, z) => s!"{fmtQ x} {fmtQ y} {fmtQ z}"
+        | none => "nan nan nan")
+      let us := " ".intercalate (o.unitScale2.map fmtOQ)
+      let ex := match o.extremes with
+        | some ((a, b, c), (x, y, z)) => s!"{fmtQ a} {fmtQ b} {fmtQ c} {fmtQ x} {fmtQ y} {fmtQ z}"
+        | none => "none"
+      pure (s!"ok {fmtQ o.rbscale2} | {pv} | {cs} | {us} | {ex} | {nulls} | {fmtQ t.modelScale} | {drmrb}")
+
 def answerP : P String := do
   let op ← tok
   match op with
@@ -427,6 +623,10 @@ def answerP : P String := do
   | "solveeig" => doSolveEig
   | "rbdisp" => doRbdisp
   | "netdrm" => doNetdrm
+  | "netfull" => doNetfull
+  | "coordchk" => doCoordchk
+  | "princ" => doPrinc
+  | "rbchk" => doRbchk
   | "rbmult" => doRbmult
   | "cbtf0" => doCbtf0
   | _ => failure
